@@ -158,9 +158,9 @@ def run(ctx):
     ntxt, _ = common.tlc(ctx, "ZnExport", "MC_ZnExport.cfg", timeout=600)
     ltxt, _ = common.tlc(ctx, "ZnExport", "MC_ZnExport_lib.cfg", timeout=600)
     evecs = [dict(v, lib=False) for v in common.vectors(ntxt, "exp")] + [dict(v, lib=True) for v in common.vectors(ltxt, "exp")]
-    if len(evecs) != 206 + 16:
+    if len(evecs) != 882 + 116:
         raise common.NoVerdict("unexpected number of export vectors: %d" % len(evecs))
-    ecases = [dict(id=i, mode=v["mode"], sel=list(v["sel"]), lib=v["lib"]) for i, v in enumerate(evecs)]
+    ecases = [dict(id=i, stmts=[dict(mode=st["mode"], sel=list(st["sel"])) for st in v["stmts"]], lib=v["lib"]) for i, v in enumerate(evecs)]
     eres = common.run_harness(ctx, znh, "modsel", ecases, timeout=900)
     if len(eres) != len(ecases):
         raise common.NoVerdict("harness returned %d/%d" % (len(eres), len(ecases)))
@@ -168,7 +168,7 @@ def run(ctx):
         v = evecs[r["id"]]
         syms = ["g", "r"] if v["lib"] else ["m", "h", "t", "p"]
         okval = dict(m="甲-help", h="甲-help", t="甲", p="ok", g="ok", r="ok")
-        what = "%s %s" % ("library" if v["lib"] else "module", "import all" if v["mode"] == "all" else "之" + "、".join(v["sel"]))
+        what = "%s %s" % ("library" if v["lib"] else "module", " ; ".join("import all" if st["mode"] == "all" else "之" + "、".join(st["sel"]) for st in v["stmts"]))
         def rep(k2, msg):
             common.report(ctx, "export:%s" % k2, "%s: %s" % (what, msg), dict(spec=v, result=r))
         if r["obs"] in ("panic", "timeout", "exit", "harness-error"):
@@ -195,6 +195,6 @@ def run(ctx):
                     "imported modules x four import lists (TLC checks the invariants on all 262144; quick replays a seeded 6000 of them, thorough all), plus all digraphs on two modules with a missing third one (576): TLC runs the depth-first load machine (invariants: body at most once, imports before body, circular error iff a cycle "
                     "is reachable - against an independent transitive-closure definition) and emits body trace and result; each vector becomes a directory of .zn files with "
                     "1-3 path segments, executed with LoadFile().Execute: body order/multiplicity, error code 63/60, and five probes per module (an imported method, a handler block of an imported method, a body "
-                    "constructing the module's type and a method of that type must all be able to use their own module's names, and a method that calls what its module imported - methods of the modules it imports, a library function - gives from the importer what it gives at home; modules not imported by main are not visible); the three-module digraphs again under other module names (1-4 path segments; dots, digits, Latin letters, underscores inside a segment), with one module file made of import statements only, and with the library 《@JSON》 imported by every file; plus 8 export/read-only/selective-import probe programs; TRACE VALIDATION: the loader's own events (script-frame pushes / pops through the H2 hook, body markers, outcome) of 2500 (all 7680) digraph runs are validated by TLC against Trace_ZnModule (ZnModule's actions, silent steps for already-loaded imports, invariants after every event); export facet (ZnExport): import-all and every selective list of <= 4 distinct names over {method, helper method, type, module variable, unknown name} in every written order (206), the same for the library 《@JSON》 (16) - usable names = exported names that are listed, every usable name refuses assignment",
+                    "constructing the module's type and a method of that type must all be able to use their own module's names, and a method that calls what its module imported - methods of the modules it imports, a library function - gives from the importer what it gives at home; modules not imported by main are not visible); the three-module digraphs again under other module names (1-4 path segments; dots, digits, Latin letters, underscores inside a segment), with one module file made of import statements only, and with the library 《@JSON》 imported by every file; plus 8 export/read-only/selective-import probe programs; TRACE VALIDATION: the loader's own events (script-frame pushes / pops through the H2 hook, body markers, outcome) of 2500 (all 7680) digraph runs are validated by TLC against Trace_ZnModule (ZnModule's actions, silent steps for already-loaded imports, invariants after every event); export facet (ZnExport): import-all and every selective list of <= 4 distinct names over {method, helper method, type, module variable, unknown name} in every written order (206), every PAIR of import statements of the same module with lists <= 2 (676: the second statement adds its names), the same for the library 《@JSON》 (16 + 100) - usable names = exported names that are listed, every usable name refuses assignment",
                spec_outcomes=outcomes)
     return cov, ["import order inside a module is alphabetical (the generator writes it that way)", "four modules: exhaustive in the thorough tier, a TLC-seeded sample in the quick tier"]
